@@ -879,7 +879,7 @@ func ruleC02Writers(r *Run) {
 	r.Floor(rule, 4)
 	m := newTierModel(w)
 	paramsF := w.Field("rux", "Context", "Params")
-	disp := w.Fn("rux", "Router.handleHTTPRequest")
+	disp := w.Dispatcher()
 	for _, f := range w.Funcs {
 		for i, st := range storesToField(f, m.matches) {
 			ok := false
